@@ -1181,7 +1181,7 @@ func (ex *explorer) doCall(st *State, in ssa.Instruction, c *ssa.CallCommon, val
 		return false
 	}
 	if c.IsInvoke() {
-		r := &Term{Op: "call", Aux: site + f.id, Args: append([]*Term{{Op: "method", Aux: c.Method.Name()}}, args...)}
+		r := &Term{Op: "call", Aux: site + f.id, Args: append([]*Term{{Op: "method", Aux: c.Method.Name(), Meth: c.Method}}, args...)}
 		ex.emit(st, Step{Kind: KCall, Instr: in, Method: c.Method, A: args, R: r})
 		bind(r)
 		ex.havocArgs(st, args[1:], site)
